@@ -11,8 +11,11 @@ definition.
   cannot break the check.
 * the dispatch table of `detect` and what the public object keeps of a detection stay regenerated facts
   (`detect`, `conn()` are not translated).
+* `factsAcceptPeeks` — whether `listener.Accept` itself reads from the accepted connection before returning it —
+  is read off the regenerated program of `Accept` (`Facts.pa.acceptProg`, same event alphabet as `swProgs`).
 -/
 import Gotlcp.Model.PA
+import Gotlcp.Model.PAListen
 import Gotlcp.Generated.Facts
 
 namespace Gotlcp.Model.PA
@@ -26,5 +29,8 @@ def factsP : Params where
   defaultUnsupported := Facts.pa.dispatchDefaultUnsupported
   retriesDetect := Facts.pa.connDetectsWheneverUnwrapped && Facts.pa.failureKeptFields.isEmpty &&
     Facts.pa.wrappedOnlyFromDispatch && Facts.pa.callsViaConn == ["Read", "Write"]
+
+/-- does `listener.Accept` park on the accepted peer (header peek inside `Accept`)? -/
+def factsAcceptPeeks : Bool := acceptPeeksOf Facts.pa.acceptProg
 
 end Gotlcp.Model.PA
